@@ -30,15 +30,11 @@ Definition chk_key (k : kty) (a : sval) : bool :=
 
 Definition keystr (a : sval) : str := match key_var a with Some s => s | None => [] end.
 
-(** a [BTreeMap]'s entries: strictly ascending in the key type's order; the theorem below
-    covers the maps whose key order agrees with the order of the keys' spellings
-    (always so for string, char and newtype-of-string keys) *)
+(** a [BTreeMap]'s entries: strictly ascending in the order of the key type *)
 Fixpoint asc (k : kty) (kvs : list (sval * sval)) : bool :=
   match kvs with
   | [] => true
-  | (a, _) :: r =>
-      forallb (fun bx => match key_cmp k a (fst bx), str_cmp (keystr a) (keystr (fst bx)) with Lt, Lt => true | _, _ => false end) r
-      && asc k r
+  | (a, _) :: r => forallb (fun bx => match key_cmp k a (fst bx) with Lt => true | _ => false end) r && asc k r
   end.
 
 Section Chk.
@@ -271,62 +267,8 @@ Proof.
   cbn in H. rewrite key_cmp_antisym, H. cbn. rewrite IH. reflexivity.
 Qed.
 
-Lemma asc_cons k a x r : asc k ((a, x) :: r) = true ->
-  Forall (fun bx => key_cmp k a (fst bx) = Lt /\ str_cmp (keystr a) (keystr (fst bx)) = Lt) r /\ asc k r = true.
-Proof.
-  cbn [asc]. intros H. apply andb_true_iff in H as [H1 H2]. split; [|exact H2].
-  apply Forall_forall. intros bx Hin. rewrite forallb_forall in H1. specialize (H1 bx Hin).
-  destruct (key_cmp k a (fst bx)); try discriminate. destruct (str_cmp (keystr a) (keystr (fst bx))); try discriminate. split; reflexivity.
-Qed.
-
 Definition entry_image (ax : sval * sval) (ky : str * value) : Prop :=
   fst ky = keystr (fst ax) /\ ser_var (snd ax) = SOk (snd ky).
-
-Lemma ser_entries_shape k kvs : forall acc m,
-  forallb (fun ax => chk_key k (fst ax)) kvs = true -> asc k kvs = true ->
-  Forall (fun kv => Forall (fun ax => str_cmp (fst kv) (keystr (fst ax)) = Lt) kvs) acc ->
-  ser_entries kvs acc = SOk m ->
-  exists ys, m = acc ++ ys /\ Forall2 entry_image kvs ys.
-Proof.
-  induction kvs as [|[a x] r IH]; intros acc m Hk Ha Hacc Hs; cbn in Hs.
-  - injection Hs as <-. exists []. rewrite app_nil_r. split; constructor.
-  - cbn in Hk. apply andb_true_iff in Hk as [Hka Hk]. destruct (chk_key_reads k a Hka) as [Hkv _].
-    rewrite Hkv in Hs. apply sbind_ok in Hs as (y & Hy & Hs).
-    apply asc_cons in Ha as [Har Ha].
-    rewrite obj_insert_app in Hs.
-    2:{ eapply Forall_impl; [|exact Hacc]. intros kv H. inversion H; subst. assumption. }
-    destruct (IH (acc ++ [(keystr a, y)]) m Hk Ha) as (ys & -> & Hys); [|exact Hs|].
-    { apply Forall_app. split.
-      - eapply Forall_impl; [|exact Hacc]. intros kv H. inversion H; subst. assumption.
-      - constructor; [|constructor]. cbn. eapply Forall_impl; [|exact Har]. intros bx [_ H]. exact H. }
-    exists ((keystr a, y) :: ys). rewrite <- app_assoc. split; [reflexivity|].
-    constructor; [split; [reflexivity|exact Hy]|exact Hys].
-Qed.
-
-Section Entries.
-  Variable t : ty.
-  Hypothesis Ht : forall x v, chk t x = true -> ser_var x = SOk v -> de t v = Some x.
-
-  Lemma de_entries_shape k kvs : forall ys accd,
-    forallb (fun ax => chk_key k (fst ax) && chk t (snd ax)) kvs = true -> asc k kvs = true ->
-    Forall (fun bx => Forall (fun ax => key_cmp k (fst bx) (fst ax) = Lt) kvs) accd ->
-    Forall2 entry_image kvs ys ->
-    de_entries k (de t) ys accd = Some (accd ++ kvs).
-  Proof.
-    induction kvs as [|[a x] r IH]; intros ys accd Hk Ha Hacc Hys; inversion Hys; subst; cbn.
-    - rewrite app_nil_r. reflexivity.
-    - destruct y as [ks y]. destruct H1 as [E Hy]. cbn in E, Hy. subst ks.
-      cbn in Hk. apply andb_true_iff in Hk as [Hka Hk]. apply andb_true_iff in Hka as [Hka Hx].
-      destruct (chk_key_reads k a Hka) as [_ Hd]. rewrite Hd, (Ht x y Hx Hy).
-      apply asc_cons in Ha as [Har Ha].
-      rewrite map_insert_app.
-      2:{ eapply Forall_impl; [|exact Hacc]. intros bx H. inversion H; subst. assumption. }
-      rewrite (IH l' (accd ++ [(a, x)]) Hk Ha); [rewrite <- app_assoc; reflexivity| |assumption].
-      apply Forall_app. split.
-      + eapply Forall_impl; [|exact Hacc]. intros bx H. inversion H; subst. assumption.
-      + constructor; [|constructor]. cbn. eapply Forall_impl; [|exact Har]. intros bx [H _]. exact H.
-  Qed.
-End Entries.
 
 (** a variant's payload type carries the hypothesis for its components *)
 Lemma rt_variant (P : ty -> Prop) (HP : forall t, P t -> forall x v, chk t x = true -> ser_var x = SOk v -> de t v = Some x) vs :
@@ -368,76 +310,3 @@ Proof.
     destruct (de_fields_obj de m fs); cbn in *; [injection H as ->; reflexivity|discriminate].
 Qed.
 
-(** A typed value survives the trip through the library: decoding what the library's
-    Serializer made of it gives the value back. *)
-Theorem de_ser_round_trip : forall t x v, chk t x = true -> ser_var x = SOk v -> de t v = Some x.
-Proof.
-  pose (P := fun t => forall x v, chk t x = true -> ser_var x = SOk v -> de t v = Some x).
-  assert (HP : forall t, P t -> forall x v, chk t x = true -> ser_var x = SOk v -> de t v = Some x) by (intros t H; exact H).
-  intros t. change (P t). induction t using ty_ind'; unfold P; intros x v Hc Hs; unfold ser_var in Hs.
-  - destruct x; try discriminate. cbn in Hs. injection Hs as <-. reflexivity.
-  - destruct x; try discriminate. cbn [ser] in Hs. injection Hs as <-. apply num_of_int_de. exact Hc.
-  - destruct x; try discriminate. cbn in Hc, Hs. unfold num_of_f64 in Hs. rewrite Hc in Hs. injection Hs as <-. reflexivity.
-  - destruct x; try discriminate. cbn in Hs. injection Hs as <-. reflexivity.
-  - destruct x; try discriminate. cbn in Hs. injection Hs as <-. reflexivity.
-  - destruct x; try discriminate. cbn in Hs. injection Hs as <-. reflexivity.
-  - (* option *)
-    destruct x; try discriminate; cbn [chk ser] in Hc, Hs.
-    + injection Hs as <-. reflexivity.
-    + apply andb_true_iff in Hc as [Hn Hc]. apply negb_true_iff in Hn.
-      pose proof (ser_not_null t x v Hn Hc Hs) as Hnn.
-      cbn [de]. rewrite (IHt x v Hc Hs). destruct v; try reflexivity. congruence.
-  - (* seq *)
-    destruct x; try discriminate; cbn [chk ser] in Hc, Hs. fold ser_list in Hs.
-    apply sbind_ok in Hs as (ys & Hys & E). injection E as <-. cbn [de].
-    rewrite (rt_seq P HP t l ys IHt Hc Hys). reflexivity.
-  - (* tuple *)
-    destruct x; try discriminate; cbn [chk ser] in Hc, Hs. fold ser_list in Hs.
-    apply sbind_ok in Hs as (ys & Hys & E). injection E as <-. cbn [de].
-    rewrite (rt_list P HP ts l ys H Hc Hys). reflexivity.
-  - destruct x; try discriminate. cbn in Hs. injection Hs as <-. reflexivity.
-  - (* newtype *)
-    destruct x; try discriminate; cbn [chk ser] in Hc, Hs. cbn [de]. rewrite (IHt x v Hc Hs). reflexivity.
-  - (* tuple struct *)
-    destruct x; try discriminate; cbn [chk ser] in Hc, Hs. fold ser_list in Hs.
-    apply sbind_ok in Hs as (ys & Hys & E). injection E as <-. cbn [de].
-    rewrite (rt_list P HP ts l ys H Hc Hys). reflexivity.
-  - (* struct *)
-    destruct x; try discriminate; cbn [chk ser] in Hc, Hs. fold ser_fields in Hs.
-    apply sbind_ok in Hs as (m & Hm & E). injection E as <-. cbn [de].
-    apply andb_true_iff in Hc as [Hnd Hc].
-    rewrite (rt_fields P HP fs H fields [] m Hnd Hc Hm). reflexivity.
-  - (* enum *)
-    cbn [chk] in Hc. destruct (variant_name x) as [n|] eqn:En; [|discriminate].
-    pose proof (rt_variant P HP vs H n x v En Hc Hs) as R. cbn [de].
-    destruct v; try discriminate; try exact R.
-  - (* map *)
-    destruct x; try discriminate; cbn [chk ser] in Hc, Hs. fold ser_entries in Hs.
-    apply sbind_ok in Hs as (m & Hm & E). injection E as <-. cbn [de].
-    apply andb_true_iff in Hc as [Hall Hasc].
-    destruct (ser_entries_shape k kvs [] m) as (ys & -> & Hys); [| exact Hasc | constructor | exact Hm |].
-    { clear - Hall. induction kvs as [|ax r IHr]; [reflexivity|]. cbn in *.
-      apply andb_true_iff in Hall as [H1 H2]. apply andb_true_iff in H1 as [H1 _]. rewrite H1. exact (IHr H2). }
-    cbn [app]. rewrite (de_entries_shape t IHt k kvs ys [] Hall Hasc); [reflexivity|constructor|exact Hys].
-  - discriminate.
-Qed.
-
-(** integer targets: the range check of the target width, never a wrap-around, never a float *)
-Lemma de_int_sound lo hi v x : de (TInt lo hi) v = Some x ->
-  exists z, x = SInt z /\ lo <= z <= hi /\ (v = VNum (PosInt z) \/ v = VNum (NegInt z)).
-Proof.
-  cbn. destruct v; try discriminate. destruct n as [z|z|f]; cbn; try discriminate;
-    destruct ((lo <=? z) && (z <=? hi)) eqn:E; try discriminate; intros H; injection H as <-;
-    exists z; (split; [reflexivity|]); (split; [lia|]); [left|right]; reflexivity.
-Qed.
-
-(** the limits of the JSON image (why [chk] excludes them): they hold of serde_json as well *)
-Lemma nested_none_is_lost : ser_var (SSome SNone) = SOk VNull /\ de (TOption (TOption TBool)) VNull = Some SNone.
-Proof. split; reflexivity. Qed.
-
-Lemma empty_tuple_variant_is_lost n : ser_var (STupleVariant n []) = SOk (VObj [(n, VArr [])]) /\
-  de (TEnum [(n, TTupleStruct [])]) (VObj [(n, VArr [])]) = None.
-Proof. split; [reflexivity|]. cbn. rewrite str_eqb_refl. reflexivity. Qed.
-
-Lemma non_finite_float_is_lost f : f_is_finite f = false -> ser_var (SF64 f) = SOk VNull /\ de TF64 VNull = None.
-Proof. intros H. split; [|reflexivity]. unfold ser_var. cbn. unfold num_of_f64. rewrite H. reflexivity. Qed.
